@@ -1263,3 +1263,272 @@ Lemma rotate_without_axis0 :
 Proof. vm_compute. reflexivity. Qed.
 Lemma reverse_without_guard : m_reverse_gen false (VI 1) = Err /\ s_monad "eval_monad_reverse" (VI 1) = Ok (VI 1).
 Proof. split; reflexivity. Qed.
+
+(* ------------------------------------------------------------------ Cut *)
+Section CutLemmas.
+  Context {A : Type} (d : A).
+
+  Lemma seg_slice : forall lo hi (l : list A), 0 <= lo -> lo <= hi -> hi <= zlen l ->
+    firstn (Z.to_nat hi - Z.to_nat lo) (skipn (Z.to_nat lo) l) = seg d lo hi l.
+  Proof.
+    intros lo hi l H0 H1 H2. unfold seg. apply (eq_tab d).
+    - rewrite firstn_length, skipn_length. unfold zlen in *. lia.
+    - intros i Hi. rewrite firstn_length, skipn_length in Hi. rewrite nth_firstn' by lia. rewrite nth_skipn'.
+      unfold ix. f_equal. lia.
+  Qed.
+
+  Lemma seg_tail : forall lo (l : list A), 0 <= lo -> lo <= zlen l ->
+    skipn (Z.to_nat lo) l = seg d lo (zlen l) l.
+  Proof.
+    intros lo l H0 H1. unfold seg. apply (eq_tab d).
+    - rewrite skipn_length. unfold zlen in *. lia.
+    - intros i Hi. rewrite nth_skipn'. unfold ix. f_equal. lia.
+  Qed.
+
+  Lemma cut_spec : forall idx prev (l : list A), 0 <= prev -> incr_within prev (zlen l) idx = true -> prev <= zlen l ->
+    forall nidx, nats_of idx = Some nidx ->
+    split_at (Z.to_nat prev) nidx l = s_cut_from d prev idx l.
+  Proof.
+    induction idx as [|i idx IH]; intros prev l H0 Hinc Hp nidx Hn.
+    - cbn in Hn. inversion Hn. subst nidx. cbn [split_at s_cut_from]. f_equal. apply seg_tail; assumption.
+    - cbn [incr_within] in Hinc. apply andb_true_iff in Hinc. destruct Hinc as [Hinc Hrest].
+      apply andb_true_iff in Hinc. destruct Hinc as [Hlo Hhi]. apply Z.leb_le in Hlo. apply Z.leb_le in Hhi.
+      cbn [nats_of] in Hn. destruct (i <? 0) eqn:Ei; [discriminate|]. apply Z.ltb_ge in Ei.
+      destruct (nats_of idx) as [ns|] eqn:En; [|discriminate]. inversion Hn. subst nidx.
+      cbn [split_at s_cut_from]. f_equal.
+      + apply seg_slice; lia.
+      + apply IH; try assumption; try reflexivity; lia.
+  Qed.
+End CutLemmas.
+
+Lemma incr_nonneg : forall idx prev hi, 0 <= prev -> incr_within prev hi idx = true -> exists ns, nats_of idx = Some ns.
+Proof.
+  induction idx as [|i idx IH]; intros prev hi H0 H; [exists []; reflexivity|].
+  cbn [incr_within] in H. apply andb_true_iff in H. destruct H as [H Hr]. apply andb_true_iff in H. destruct H as [H1 H2].
+  apply Z.leb_le in H1. destruct (IH i hi ltac:(lia) Hr) as [ns Hn].
+  cbn [nats_of]. replace (i <? 0) with false by (symmetry; apply Z.ltb_ge; lia). rewrite Hn. eexists; reflexivity.
+Qed.
+
+Lemma split_at_map : forall {A B} (f : A -> B) idx prev (l : list A),
+  split_at prev idx (map f l) = map (map f) (split_at prev idx l).
+Proof.
+  induction idx as [|i idx IH]; intros prev l; cbn [split_at map].
+  - rewrite skipn_map. reflexivity.
+  - rewrite skipn_map, firstn_map, IH. reflexivity.
+Qed.
+
+Lemma rmap_joined_chars : forall (ss : list (list Z)), rmap joined (map chars ss) = Ok (map VS ss).
+Proof.
+  induction ss as [|s ss IH]; [reflexivity|]. cbn [map rmap]. rewrite joined_chars. cbn [bind]. rewrite IH. reflexivity.
+Qed.
+
+Local Open Scope string_scope.
+Local Open Scope Z_scope.
+Lemma m_dyad_cut : forall a b, canonical a && canonical b = true -> m_dyad "eval_dyad_cut" a b = m_cut a b.
+Proof. intros a b H. unfold m_dyad. rewrite H. reflexivity. Qed.
+
+Lemma ints_of_all_int : forall l, forallb is_int l = true -> exists zs, ints_of l = Some zs.
+Proof.
+  induction l as [|y l IH]; intros H; [exists []; reflexivity|].
+  cbn [forallb] in H. apply andb_true_iff in H. destruct H as [Hy Hl]. destruct (IH Hl) as [zs Hz].
+  destruct y; try discriminate Hy. cbn [ints_of]. rewrite Hz. eexists; reflexivity.
+Qed.
+
+Definition operand_ints (a : val) : list val := match a with VL la => la | _ => [a] end.
+
+Lemma cut_dom_inv : forall a b, dom_dyad "eval_dyad_cut" a b = true ->
+  exists zs, ints_of (operand_ints a) = Some zs /\ zints a = zs /\
+    ((exists l, b = VL l /\ incr_within 0 (zlen l) zs = true /\ 0 < zlen l) \/
+     (exists t, b = VS t /\ incr_within 0 (zlen t) zs = true /\ 0 < zlen t)).
+Proof.
+  intros a b Hd.
+  destruct a as [n| | | | |la|]; try (destruct b; cbn in Hd; discriminate Hd).
+  - exists [n]. split; [reflexivity|]. split; [reflexivity|].
+    destruct b as [z|r|c|t|t|l|]; try (cbn in Hd; discriminate Hd).
+    + right. exists t. split; [reflexivity|]. cbn in Hd. apply andb_true_iff in Hd. destruct Hd as [Hd Hp].
+      apply Z.ltb_lt in Hp. split; [|exact Hp]. cbn [incr_within]. rewrite Hd. reflexivity.
+    + left. exists l. split; [reflexivity|]. cbn in Hd. apply andb_true_iff in Hd. destruct Hd as [Hd Hp].
+      apply Z.ltb_lt in Hp. split; [|exact Hp]. cbn [incr_within]. rewrite Hd. reflexivity.
+  - destruct la as [|x r']; [destruct b; cbn in Hd; discriminate Hd|].
+    destruct b as [z|r|c|t|t|l|]; try (cbn in Hd; discriminate Hd).
+    + change (dom_dyad "eval_dyad_cut" (VL (x :: r')) (VS t)) with
+        ((npdepth (VL (x :: r')) =? 1)%nat && forallb is_int (x :: r') && incr_within 0 (zlen t) (zints (VL (x :: r'))) && (0 <? zlen t)) in Hd.
+      apply andb_true_iff in Hd. destruct Hd as [Hd Hp]. apply andb_true_iff in Hd. destruct Hd as [Hd Hinc].
+      apply andb_true_iff in Hd. destruct Hd as [_ Hall]. apply Z.ltb_lt in Hp.
+      destruct (ints_of_all_int _ Hall) as [zs Hz]. exists zs. split; [exact Hz|].
+      assert (Ez : zints (VL (x :: r')) = zs) by (unfold zints, members; rewrite Hz; reflexivity).
+      split; [exact Ez|]. right. exists t. rewrite Ez in Hinc. auto.
+    + change (dom_dyad "eval_dyad_cut" (VL (x :: r')) (VL l)) with
+        ((npdepth (VL (x :: r')) =? 1)%nat && forallb is_int (x :: r') && incr_within 0 (zlen l) (zints (VL (x :: r'))) && (0 <? zlen l)) in Hd.
+      apply andb_true_iff in Hd. destruct Hd as [Hd Hp]. apply andb_true_iff in Hd. destruct Hd as [Hd Hinc].
+      apply andb_true_iff in Hd. destruct Hd as [_ Hall]. apply Z.ltb_lt in Hp.
+      destruct (ints_of_all_int _ Hall) as [zs Hz]. exists zs. split; [exact Hz|].
+      assert (Ez : zints (VL (x :: r')) = zs) by (unfold zints, members; rewrite Hz; reflexivity).
+      split; [exact Ez|]. left. exists l. rewrite Ez in Hinc. auto.
+Qed.
+
+Lemma m_cut_unfold : forall a b zs ns j x l', ints_of (operand_ints a) = Some zs -> nats_of zs = Some ns ->
+  as_members b = Some (j, x :: l') -> m_cut a b = segs j (split_at 0 ns (x :: l')).
+Proof.
+  intros a b zs ns j x l' Hz Hn Hb. unfold m_cut. rewrite Hb. fold (operand_ints a). rewrite Hz, Hn.
+  destruct ns; reflexivity.
+Qed.
+
+(* positions as one integer or a 1-D list of integers, non-decreasing within 0..#b, b non-empty list or string *)
+Lemma cut_holds : forall a b, canonical a && canonical b = true ->
+  dom_dyad "eval_dyad_cut" a b = true ->
+  m_dyad "eval_dyad_cut" a b = s_dyad "eval_dyad_cut" a b.
+Proof.
+  intros a b Hc Hd. rewrite m_dyad_cut by exact Hc.
+  destruct (cut_dom_inv a b Hd) as [zs [Hz [Ezi [[l [-> [Hinc Hp]]]|[t [-> [Hinc Hp]]]]]]].
+  - destruct l as [|x l']; [cbn in Hp; lia|].
+    destruct (incr_nonneg zs 0 _ ltac:(lia) Hinc) as [ns Hn].
+    rewrite (m_cut_unfold a (VL (x :: l')) zs ns false x l' Hz Hn eq_refl).
+    change (s_dyad "eval_dyad_cut" a (VL (x :: l'))) with (Ok (lists (s_cut VU (zints a) (x :: l')))).
+    rewrite Ezi. unfold segs, lists. f_equal. f_equal. f_equal. unfold s_cut.
+    apply (cut_spec VU zs 0 (x :: l')); try assumption; lia.
+  - destruct t as [|c t']; [cbn in Hp; lia|].
+    destruct (incr_nonneg zs 0 _ ltac:(lia) Hinc) as [ns Hn].
+    rewrite (m_cut_unfold a (VS (c :: t')) zs ns true (VC c) (chars t') Hz Hn eq_refl).
+    change (s_dyad "eval_dyad_cut" a (VS (c :: t'))) with (Ok (strs (s_cut 0 (zints a) (c :: t')))).
+    rewrite Ezi. change (VC c :: chars t') with (chars (c :: t')). unfold chars at 1. rewrite split_at_map.
+    unfold segs, okl. fold chars. rewrite rmap_joined_chars. cbn [bind]. unfold strs. f_equal. f_equal. f_equal.
+    unfold s_cut. apply (cut_spec 0 zs 0 (c :: t')); try assumption; lia.
+Qed.
+
+(* ------------------------------------------------------------------ Split *)
+Section SplitLemmas.
+  Context {A : Type} (d : A).
+
+  Lemma seg_clip : forall off s (l : list A), 0 <= off -> off <= zlen l -> 0 <= s ->
+    firstn (Z.to_nat s) (skipn (Z.to_nat off) l) = seg d off (Z.min (off + s) (zlen l)) l.
+  Proof.
+    intros off s l H0 H1 H2. unfold seg. apply (eq_tab d).
+    - rewrite firstn_length, skipn_length. unfold zlen in *. lia.
+    - intros i Hi. rewrite firstn_length, skipn_length in Hi. rewrite nth_firstn' by lia. rewrite nth_skipn'.
+      unfold ix. f_equal. lia.
+  Qed.
+
+  Lemma skipn_skipn' : forall a b (l : list A), skipn a (skipn b l) = skipn (b + a) l.
+  Proof.
+    intros a b. revert a. induction b as [|b IH]; intros a l; [reflexivity|].
+    destruct l as [|x l]; [rewrite !skipn_nil; reflexivity|]. cbn [skipn Nat.add]. apply IH.
+  Qed.
+
+  Lemma skipn_nonempty : forall k (l : list A), (k < List.length l)%nat -> skipn k l <> [].
+  Proof.
+    intros k l H E. assert (X : List.length (skipn k l) = O) by (rewrite E; reflexivity). rewrite skipn_length in X. lia.
+  Qed.
+
+  (* one size, segments cut at its multiples *)
+  Lemma split_multiples : forall a0 (l : list A), (0 < a0)%nat ->
+    forall fm fs k prev, (prev < List.length l)%nat ->
+      (List.length l <= fm + (prev + a0))%nat -> (List.length l - prev <= fs)%nat ->
+      split_at prev (multiples fm a0 (prev + a0) (List.length l)) l
+      = s_split_from d fs k (Z.of_nat prev) [Z.of_nat a0] l.
+  Proof.
+    intros a0 l Ha. induction fm as [|fm IH]; intros fs k prev Hp Hfm Hfs.
+    - (* no fuel: prev + a0 >= L *)
+      cbn [multiples split_at]. destruct fs as [|fs]; [lia|]. cbn [s_split_from].
+      replace (Z.of_nat prev <? zlen l) with true by (symmetry; apply Z.ltb_lt; unfold zlen; lia).
+      replace (nth (k mod List.length [Z.of_nat a0]) [Z.of_nat a0] 1) with (Z.of_nat a0)
+        by (cbn [List.length]; rewrite Nat.mod_1_r; reflexivity).
+      f_equal.
+      + rewrite <- (Nat2Z.id prev) at 1. rewrite (seg_tail d) by (unfold zlen; lia). f_equal. unfold zlen. lia.
+      + destruct fs; [reflexivity|]. cbn [s_split_from].
+        replace (Z.of_nat prev + Z.of_nat a0 <? zlen l) with false by (symmetry; apply Z.ltb_ge; unfold zlen; lia). reflexivity.
+    - cbn [multiples]. destruct fs as [|fs]; [lia|]. cbn [s_split_from].
+      replace (Z.of_nat prev <? zlen l) with true by (symmetry; apply Z.ltb_lt; unfold zlen; lia).
+      replace (nth (k mod List.length [Z.of_nat a0]) [Z.of_nat a0] 1) with (Z.of_nat a0)
+        by (cbn [List.length]; rewrite Nat.mod_1_r; reflexivity).
+      destruct (Nat.ltb (prev + a0) (List.length l)) eqn:E.
+      + apply Nat.ltb_lt in E. cbn [split_at]. f_equal.
+        * replace (prev + a0 - prev)%nat with (Z.to_nat (Z.of_nat a0)) by lia.
+          rewrite <- (Nat2Z.id prev) at 1. rewrite seg_clip by (unfold zlen; lia). reflexivity.
+        * replace (Z.of_nat prev + Z.of_nat a0) with (Z.of_nat (prev + a0)) by lia. apply IH; lia.
+      + apply Nat.ltb_ge in E. cbn [split_at]. f_equal.
+        * rewrite <- (Nat2Z.id prev) at 1. rewrite (seg_tail d) by (unfold zlen; lia). f_equal. unfold zlen. lia.
+        * destruct fs; [reflexivity|]. cbn [s_split_from].
+          replace (Z.of_nat prev + Z.of_nat a0 <? zlen l) with false by (symmetry; apply Z.ltb_ge; unfold zlen; lia). reflexivity.
+  Qed.
+
+  (* several sizes: the cycling loop *)
+  Lemma split_loop_spec : forall (sizes : list Z) (l : list A), sizes <> [] -> Forall (fun s => 0 < s) sizes ->
+    forall fm fs k off cur, (off <= List.length l)%nat ->
+      ((cur = skipn (k mod List.length sizes) sizes) \/ (cur = [] /\ (k mod List.length sizes = 0)%nat)) ->
+      (2 * (List.length l - off) + 2 <= fm)%nat -> (List.length l - off <= fs)%nat ->
+      split_loop fm sizes cur (skipn off l) = Ok (s_split_from d fs k (Z.of_nat off) sizes l).
+  Proof.
+    intros sizes l Hne Hpos.
+    assert (Hn : (0 < List.length sizes)%nat) by (destruct sizes; [congruence|cbn; lia]).
+    induction fm as [|fm IH] using lt_wf_ind. intros fs k off cur Hoff Hcur Hfm Hfs.
+    destruct fm as [|fm]; [lia|]. cbn [split_loop].
+    destruct (skipn off l) as [|x rest] eqn:Erest.
+    - (* end of the list *)
+      assert (off = List.length l).
+      { destruct (Nat.eq_dec off (List.length l)) as [|Hneq]; [assumption|]. exfalso.
+        apply (skipn_nonempty off l); [lia|exact Erest]. }
+      subst off. destruct fs; [reflexivity|]. cbn [s_split_from].
+      replace (Z.of_nat (List.length l) <? zlen l) with false by (symmetry; apply Z.ltb_ge; unfold zlen; lia). reflexivity.
+    - assert (Hlt : (off < List.length l)%nat).
+      { destruct (Nat.lt_ge_cases off (List.length l)) as [|Hge]; [assumption|]. rewrite skipn_all2 in Erest by lia. discriminate. }
+      rewrite <- Erest.
+      assert (Hmod : (k mod List.length sizes < List.length sizes)%nat) by (apply Nat.mod_upper_bound; lia).
+      assert (Hstep : forall cur0, cur0 = skipn (k mod List.length sizes) sizes -> forall fm0, (2 * (List.length l - off) + 1 <= S fm0)%nat ->
+                (forall m, (m < S fm0)%nat -> forall fs k off cur, (off <= List.length l)%nat ->
+                   cur = skipn (k mod List.length sizes) sizes \/ cur = [] /\ (k mod List.length sizes)%nat = 0%nat ->
+                   (2 * (List.length l - off) + 2 <= m)%nat -> (List.length l - off <= fs)%nat ->
+                   split_loop m sizes cur (skipn off l) = Ok (s_split_from d fs k (Z.of_nat off) sizes l)) ->
+                match cur0 with
+                | [] => match sizes with [] => Err | _ => split_loop fm0 sizes sizes (skipn off l) end
+                | s :: cur' => if s <=? 0 then Unmod else
+                      bind (split_loop fm0 sizes cur' (skipn (Z.to_nat s) (skipn off l))) (fun r => Ok (firstn (Z.to_nat s) (skipn off l) :: r))
+                end = Ok (s_split_from d fs k (Z.of_nat off) sizes l)).
+      { intros cur0 Ecur fm0 Hfm0 IH0.
+        pose proof (skipn_nonempty _ _ Hmod) as Hcne.
+        destruct cur0 as [|s cur']; [rewrite <- Ecur in Hcne; congruence|].
+        assert (Es : nth (k mod List.length sizes) sizes 1 = s).
+        { rewrite <- (Nat.add_0_r (k mod List.length sizes)). rewrite <- (nth_skipn' 1 (k mod List.length sizes) sizes 0).
+          rewrite <- Ecur. reflexivity. }
+        assert (Hs : 0 < s).
+        { rewrite Forall_forall in Hpos. apply Hpos. rewrite <- Es. apply nth_In. exact Hmod. }
+        replace (s <=? 0) with false by (symmetry; apply Z.leb_gt; exact Hs).
+        destruct fs as [|fs]; [lia|]. cbn [s_split_from].
+        replace (Z.of_nat off <? zlen l) with true by (symmetry; apply Z.ltb_lt; unfold zlen; lia).
+        rewrite Es. rewrite skipn_skipn'.
+        set (off' := (off + Z.to_nat s)%nat).
+        destruct (Nat.le_gt_cases off' (List.length l)) as [Hle|Hgt].
+        - rewrite (IH0 fm0 ltac:(lia) fs (S k) off' cur'); [| exact Hle | | unfold off'; lia | unfold off'; lia].
+          + cbn [bind]. f_equal. f_equal.
+            * rewrite <- (Nat2Z.id off) at 1. rewrite seg_clip by (unfold zlen; lia). reflexivity.
+            * f_equal. unfold off'. lia.
+          + (* the remaining sizes *)
+            assert (Ecur' : cur' = skipn (S (k mod List.length sizes)) sizes).
+            { replace (S (k mod List.length sizes)) with (k mod List.length sizes + 1)%nat by lia.
+              rewrite <- skipn_skipn'. rewrite <- Ecur. reflexivity. }
+            destruct (Nat.eq_dec (S (k mod List.length sizes)) (List.length sizes)) as [Eend|Eend].
+            * right. split.
+              -- rewrite Ecur', Eend. apply skipn_all.
+              -- replace (S k) with (k + 1)%nat by lia. rewrite Nat.add_mod by lia.
+                 destruct (Nat.eq_dec (List.length sizes) 1) as [E1|E1].
+                 ++ rewrite E1. rewrite !Nat.mod_1_r. reflexivity.
+                 ++ rewrite (Nat.mod_small 1) by lia. replace (k mod List.length sizes + 1)%nat with (List.length sizes) by lia.
+                    apply Nat.mod_same. lia.
+            * left. rewrite Ecur'. f_equal.
+              replace (S k) with (k + 1)%nat by lia. rewrite Nat.add_mod by lia.
+              destruct (Nat.eq_dec (List.length sizes) 1) as [E1|E1]; [rewrite E1 in *; rewrite Nat.mod_1_r in Eend; lia|].
+              rewrite (Nat.mod_small 1) by lia. rewrite Nat.mod_small by lia. lia.
+        - (* the segment reaches the end *)
+          rewrite skipn_all2 by (unfold off' in *; lia).
+          assert (Eloop : split_loop fm0 sizes cur' (@nil A) = Ok []) by (destruct fm0; [lia|reflexivity]).
+          rewrite Eloop. cbn [bind]. f_equal. f_equal.
+          + rewrite <- (Nat2Z.id off) at 1. rewrite seg_clip by (unfold zlen; lia). reflexivity.
+          + destruct fs; [reflexivity|]. cbn [s_split_from].
+            replace (Z.of_nat off + s <? zlen l) with false by (symmetry; apply Z.ltb_ge; unfold zlen, off' in *; lia). reflexivity. }
+      destruct Hcur as [Hcur|[Hcur Hk0]].
+      + apply (Hstep cur Hcur fm); [lia|]. intros m Hm. apply IH. lia.
+      + subst cur. destruct sizes as [|s0 sizes']; [congruence|].
+        destruct fm as [|fm']; [lia|]. cbn [split_loop]. rewrite Erest. rewrite <- Erest.
+        apply (Hstep (s0 :: sizes')); [rewrite Hk0; reflexivity|lia|]. intros m Hm. apply IH. lia.
+  Qed.
+End SplitLemmas.
